@@ -169,6 +169,7 @@ def reset(order=(), keep_semaphores=False):
     """Fresh process-global bubus state for one path."""
     global _paths_since_gc
     install_static_stubs()
+    warnings.simplefilter('ignore')      # (a template may have promoted warnings to errors)
     _restore_globals(skip=('GLOBAL_RETRY_SEMAPHORES', 'GLOBAL_RETRY_SEMAPHORE_LOOPS') if keep_semaphores else ())
     if _real_open_file is not None:
         service.anyio.open_file = _real_open_file
